@@ -96,13 +96,13 @@ Qed.
 (* the generated per-node delegations are encodable                                                 *)
 (* ---------------------------------------------------------------------------------------------- *)
 Lemma pool_evs_deleg_ok ty p : pool_ok ty p = true ->
-  str_neqb (p_id p) single_pool_name && match p_details p with Some x => det_ok lc x && det_nonempty x | None => false end = true ->
+  match p_details p with Some x => det_ok lc x && det_nonempty x | None => false end = true ->
   Forall (fun e => deleg_ok lc ty (snd e) = true) (pool_evs ty p).
 Proof.
-  intros OK EN. destruct (pool_ok_inv ty p OK) as (did & on & x & T & Hd & Ho & Hx & K & _).
-  rewrite Hx in EN. apply andb_true_iff in EN as [NP EN]. apply andb_true_iff in EN as [DO DN].
+  intros OK EN. destruct (pool_ok_inv ty p OK) as (did & on & x & T & Hd & Ho & Hx & K & _ & _ & _ & NR).
+  rewrite Hx in EN. apply andb_true_iff in EN as [DO DN].
   unfold pool_evs. rewrite Hd, Ho, Hx. constructor.
-  - cbn [snd]. unfold deleg_ok. cbn. rewrite dtype_eqb_refl, NP, K, dtype_eqb_refl, DO, DN. reflexivity.
+  - cbn [snd]. unfold deleg_ok, str_neqb. cbn. rewrite dtype_eqb_refl, NR, K, dtype_eqb_refl, DO, DN. reflexivity.
   - apply Forall_forall. intros e He. apply in_map_iff in He as (n & <- & _). cbn [snd]. unfold deleg_ok. cbn.
     rewrite dtype_eqb_refl. reflexivity.
 Qed.
